@@ -3,8 +3,8 @@
 Functions under contract: tracing.builtins_mock.mock_builtins (generator context manager, executed
 through Python's `with` protocol by inline expansion at its `yield`), and the call site in
 tracing.function.trace_function.  `f.__globals__` is a dictionary whose three shadowed names
-(float, int, len) are each present or absent (all 8 combinations, a complete enumeration) with
-opaque values; other keys are opaque too.  The `with` body is arbitrary code that leaves the
+(float, int, len) are each absent, bound to an opaque user value, or bound to the builtin object
+itself (all 27 combinations, a complete enumeration of presence and identity); other keys are opaque too.  The `with` body is arbitrary code that leaves the
 dictionary as it found it (nested well-behaved tracing, by induction) and may raise.
 """
 import ast
@@ -22,7 +22,10 @@ REPLAY = r'''
 import guppylang_internals.tracing.builtins_mock as M
 I = INPUT
 g = {"other": object()}
-for n in I["present"]: g[n] = ("user", n)
+import builtins
+for n in I["present"]:
+    if n.endswith("=b"): g[n[:-2]] = getattr(builtins, n[:-2])
+    else: g[n] = ("user", n)
 before = dict(g)
 class F: pass
 f = F(); f.__globals__ = g
@@ -49,13 +52,19 @@ def run(chk):
     e.func_info("guppylang_internals.tracing.function", "trace_function")
     raises = z3.Bool("body_raises")
     inner_raises = z3.Bool("inner_raises")
-    for present in itertools.chain.from_iterable(itertools.combinations(NAMES, r) for r in range(4)):
+    # every name is absent (-), bound to a user object (u) or bound to the very builtin (b), e.g.
+    # `from builtins import int`: 27 combinations, a complete enumeration of the identity cases
+    for states in itertools.product("-ub", repeat=3):
+        present = tuple(f"{n}={st}" if st == "b" else n for n, st in zip(NAMES, states) if st != "-")
         for nested in (False, True):
-            def t(it, present=present, nested=nested):
+            def t(it, present=present, nested=nested, states=states):
                 m = e.module(MOD)
                 g = {"other": SObj(ClassVal("UserObj"), {})}
-                for n in present:
-                    g[n] = SObj(ClassVal("UserBinding"), {"name": n})
+                for n, st in zip(NAMES, states):
+                    if st == "u":
+                        g[n] = SObj(ClassVal("UserBinding"), {"name": n})
+                    elif st == "b":
+                        g[n] = it.exec_snippet(m, f"v = getattr(builtins, {n!r})")["v"]
                 before = dict(g)
                 f = SObj(ClassVal("function"), {"__globals__": g})
 
@@ -120,7 +129,7 @@ def run(chk):
                 offenders.append(f"{os.path.basename(path)}:{n.lineno}")
     chk.record("tracing-package:only-mock_builtins-touches-__globals__", not offenders, str(offenders), func=f"{MOD}:mock_builtins", backend="structural(scan)")
     chk.must_fail("twin:body-may-raise", [], z3.Not(raises))
-    chk.expected_min_obligations = 40
+    chk.expected_min_obligations = 110
     chk.assumptions += ["the traced body itself leaves f.__globals__ as it found it (user code assigning its own globals is outside the property); nested tracing is covered by induction on the nesting depth with this contract as hypothesis (one nesting level is additionally executed)",
                         "Python's `with` protocol and @contextmanager semantics as implemented by pyvc (body runs at the yield; an exception in the body is raised at the yield; finally blocks run)",
                         "set_tracing_state / exception_hook restore interpreter-internal state only on normal exit; they do not touch module globals and are not part of this property"]
